@@ -8,7 +8,13 @@
 (*   Table[i][j][k]   the same for a two-parameter scan;                   *)
 (*   stable[j] / stable[j][k]  the phase reported as stable at that point; *)
 (*   G[1..n]          Gibbs energies of the states of a reaction sequence  *)
-(*                    in the order they are visited; span(G).              *)
+(*                    in the order they are visited; span(G).  The states  *)
+(*                    of a sequence are ALL occupied states of ALL steps:  *)
+(*                    States(steps) lists every step's reactant state,     *)
+(*                    its transition state if any, and its product state.  *)
+(*                    The reactant state of step k is NOT assumed to be    *)
+(*                    the product state of step k-1 (a co-reactant may     *)
+(*                    join, a by-product may leave).                       *)
 (*                                                                         *)
 (* REQUIRED RELATION (order-generic: the design model instantiates it with *)
 (* integers, Trace_Extrema.tla with Dec numbers logged from the library):  *)
@@ -34,6 +40,13 @@
 (*                      .cfg is expected to be REJECTED.                   *)
 (*   Impl2D: transpose to [j][k][i], arg-min over the last axis (correct). *)
 (*   ImplSpan: first arg-max, first arg-min (numpy.argmax / argmin).       *)
+(*   Variant = "skipreact": arg-min as "axis0", but the state list of a    *)
+(*                      sequence drops the reactant state of every step    *)
+(*                      after the first ("it is the previous product       *)
+(*                      state").  Equal to States only for contiguous      *)
+(*                      chains (lemma ContiguousSkipHarmless);             *)
+(*                      MC_Extrema_skipreact.cfg is expected to be         *)
+(*                      REJECTED by SpanDefinition.                        *)
 (***************************************************************************)
 EXTENDS Integers, Sequences, FiniteSets
 
@@ -74,7 +87,28 @@ SpanAt(G, a, b, Plus(_, _), Minus(_, _), zero) ==
 SpanSet(G, LE(_, _), Plus(_, _), Minus(_, _), zero) ==
    {SpanAt(G, a, b, Plus, Minus, zero) : a \in ArgMaxs(G, LE), b \in ArgMins(G, LE)}
 
-\* the state list Reactions.get_E_span walks: reactants, [TS], products of every step
+\* ---- the states of a reaction sequence.  A step is a record
+\*   [r |-> energy of its reactant state, t |-> <<>> or <<energy of its TS>>, p |-> products]
+\* and EVERY step contributes its reactant state explicitly.
+StepStates(st) == <<st.r>> \o st.t \o <<st.p>>
+RECURSIVE States(_)
+States(steps) == IF Len(steps) = 0 THEN <<>> ELSE StepStates(steps[1]) \o States(Tail(steps))
+\* implementation-shaped variant: later reactant states dropped
+RECURSIVE StatesSkipFrom(_, _)
+StatesSkipFrom(steps, k) ==
+   IF k > Len(steps) THEN <<>>
+   ELSE (IF k = 1 THEN StepStates(steps[k]) ELSE steps[k].t \o <<steps[k].p>>)
+        \o StatesSkipFrom(steps, k + 1)
+StatesSkip(steps) == StatesSkipFrom(steps, 1)
+\* positions in States(steps) of the reactant states of steps 2, 3, ...
+RECURSIVE LaterReactantPos(_, _, _)
+LaterReactantPos(steps, k, off) ==
+   IF k > Len(steps) THEN {}
+   ELSE (IF k > 1 THEN {off + 1} ELSE {}) \cup LaterReactantPos(steps, k + 1, off + 2 + Len(steps[k].t))
+Contiguous(steps) == \A k \in 2..Len(steps) : steps[k].r = steps[k - 1].p
+
+\* CONTIGUOUS CHAINS ONLY (used for nothing but the lemmas below and the legacy chain
+\* cases): the state list Reactions.get_E_span walks: reactants, [TS], products of every step
 \* (products of step s and reactants of step s+1 are the same state, listed twice);
 \* g = path without repetition, ts[s] = step s has a transition state
 RECURSIVE WalkFrom(_, _, _, _)
@@ -92,9 +126,10 @@ CONSTANTS MaxR, MaxP,        \* 1-D: up to MaxR reactions x MaxP grid points
           MaxR2, MaxP2,      \* 2-D: up to MaxR2 reactions x MaxP2 x MaxP2 points
           Vals,              \* table entries
           MaxS, SVals,       \* spans: up to MaxS states with energies in SVals
-          Variant            \* "axis0" | "axis1"
+          MaxSteps, StepVals,\* sequences: up to MaxSteps steps, every state energy in StepVals
+          Variant            \* "axis0" | "axis1" | "skipreact"
 
-VARIABLES call,              \* "idle" | "scan1" | "scan2" | "slice" | "span"
+VARIABLES call,              \* "idle" | "scan1" | "scan2" | "slice" | "span" | "spanseq"
           arg,               \* the object queried: [kind, v] - a table or a list of state energies
           out                \* what the call reports
 vars == <<call, arg, out>>
@@ -107,9 +142,11 @@ First(S) == CHOOSE x \in S : \A y \in S : x <= y
 Tables1 == UNION {[1..r -> [1..p -> Vals]] : r \in 1..MaxR, p \in 1..MaxP}
 Tables2 == UNION {[1..r -> [1..p -> [1..q -> Vals]]] : r \in 1..MaxR2, p \in 1..MaxP2, q \in 1..MaxP2}
 Energies == UNION {[1..n -> SVals] : n \in 1..MaxS}
+StepRecs == [r : StepVals, t : {<<>>} \cup {<<v>> : v \in StepVals}, p : StepVals]
+Sequences == UNION {[1..n -> StepRecs] : n \in 1..MaxSteps}
 
 Impl1D(T) ==
-   IF Variant = "axis0"
+   IF Variant # "axis1"
    THEN [j \in 1..Len(T[1]) |-> First(ArgMins(Col1(T, j), ILE))]
    ELSE [i \in 1..Len(T) |-> First(ArgMins(T[i], ILE))]           \* nanargmin(GoRT, axis=1)
 Impl2D(T) ==
@@ -119,6 +156,11 @@ ImplSpan(G) ==
 
 \* the object (a phase diagram / a reaction sequence) exists first, then is queried
 Objects == [kind : {"t1"}, v : Tables1] \cup [kind : {"t2"}, v : Tables2] \cup [kind : {"g"}, v : Energies]
+           \cup [kind : {"seq"}, v : Sequences]
+\* Reactions.get_E_span on a sequence of steps
+ImplStates(steps) == IF Variant = "skipreact" THEN StatesSkip(steps) ELSE States(steps)
+ImplSpanSeq(steps) == ImplSpan(ImplStates(steps))
+
 Init == call = "idle" /\ arg \in Objects /\ out = <<>>
 Scan1D == call = "idle" /\ arg.kind = "t1" /\ call' = "scan1" /\ out' = Impl1D(arg.v) /\ UNCHANGED arg
 Scan2D == call = "idle" /\ arg.kind = "t2" /\ call' = "scan2" /\ out' = Impl2D(arg.v) /\ UNCHANGED arg
@@ -126,8 +168,10 @@ Scan2D == call = "idle" /\ arg.kind = "t2" /\ call' = "scan2" /\ out' = Impl2D(a
 Sliced == call = "idle" /\ arg.kind = "t1" /\ call' = "slice"
           /\ out' = <<Impl1D(arg.v), Impl2D(Lift(arg.v))>> /\ UNCHANGED arg
 Span == call = "idle" /\ arg.kind = "g" /\ call' = "span" /\ out' = ImplSpan(arg.v) /\ UNCHANGED arg
+SpanSeq == call = "idle" /\ arg.kind = "seq" /\ call' = "spanseq" /\ out' = ImplSpanSeq(arg.v)
+           /\ UNCHANGED arg
 Return == call # "idle" /\ call' = "idle" /\ out' = <<>> /\ UNCHANGED arg
-Next == Scan1D \/ Scan2D \/ Sliced \/ Span \/ Return
+Next == Scan1D \/ Scan2D \/ Sliced \/ Span \/ SpanSeq \/ Return
 Spec == Init /\ [][Next]_vars
 
 \* ---- the property on the design model
@@ -145,7 +189,9 @@ OneDEqualsTwoDSlice ==
       /\ Len(out[1]) = Len(out[2])
       /\ \A j \in 1..Len(out[1]) : out[2][j] = <<out[1][j]>>
 SpanDefinition ==
-   call = "span" => out \in SpanSet(arg.v, ILE, IPlus, IMinus, 0)
+   /\ call = "span" => out \in SpanSet(arg.v, ILE, IPlus, IMinus, 0)
+   \* over ALL states of the sequence, every step's reactant state included
+   /\ call = "spanseq" => out \in SpanSet(States(arg.v), ILE, IPlus, IMinus, 0)
 
 \* ---- facts about the definitions themselves (ASSUMEd in MC_Extrema)
 \* both branches of the span definition occur, also with first-extremum selection
@@ -154,9 +200,25 @@ BothBranches ==
    /\ \E G \in Energies : First(ArgMaxs(G, ILE)) > First(ArgMins(G, ILE))
 \* a single state has span 0
 SpanOfOne == \A v \in SVals : ImplSpan(<<v>>) = 0
-\* listing the shared state of consecutive steps twice (Reactions.get_E_span) does not
-\* change the set of acceptable spans (Network.get_E_span lists it once)
+\* CONTIGUOUS CHAINS: listing the shared state of consecutive steps twice
+\* (Reactions.get_E_span) does not change the set of acceptable spans (Network.get_E_span
+\* lists it once).  This is a statement about chains; it is never used to drop a state:
+\* the trace specification always evaluates States(steps).
 WalkInvariant(TsPatterns) ==
    \A ts \in TsPatterns : \A g \in [1..NStates(ts) -> SVals] :
       SpanSet(Walk(g, ts), ILE, IPlus, IMinus, 0) = SpanSet(g, ILE, IPlus, IMinus, 0)
+\* dropping later reactant states is harmless exactly-enough for contiguous sequences ...
+ContiguousSkipHarmless ==
+   \A steps \in Sequences : Contiguous(steps) =>
+      SpanSet(StatesSkip(steps), ILE, IPlus, IMinus, 0) = SpanSet(States(steps), ILE, IPlus, IMinus, 0)
+\* ... and wrong for some non-contiguous one (no acceptable span is reported)
+SkipWrongSomewhere ==
+   \E steps \in Sequences :
+      ImplSpan(StatesSkip(steps)) \notin SpanSet(States(steps), ILE, IPlus, IMinus, 0)
+\* a later step's reactant state lies strictly beyond every other state of the sequence
+LaterReactantExtreme(steps) ==
+   LET rest == StatesSkip(steps) IN
+   \E k \in 2..Len(steps) :
+      \/ \A i \in 1..Len(rest) : rest[i] < steps[k].r
+      \/ \A i \in 1..Len(rest) : rest[i] > steps[k].r
 =============================================================================
